@@ -24,6 +24,7 @@ type c08Case struct {
 	Release   []int  // release order: indexes into the In+Out handlers
 	Cut       bool   // cut the connection after Close began and before the last release
 	CutAfter  int    // number of releases before the cut
+	Second    string   // a second closer started right after the first one: "" | session
 	Prior     []string // operations completed on the closing side's session before anything is in flight: okcall | failcall | push | unencodable (the argument cannot be marshalled: the call fails locally) | deadctx (the call's context is already cancelled: it fails locally)
 }
 
@@ -39,6 +40,10 @@ func genC08(t *rapid.T, protos []vt.NamedProto) c08Case {
 	if c.In+c.Out > 0 {
 		c.CutAfter = rapid.IntRange(0, c.In+c.Out-1).Draw(t, "cutafter")
 	}
+	// (a second *peer-level* Close is not generated: Peer.Close only looks at the sessions still
+	// indexed, and a session leaves the index when its close begins, so whether such a call has
+	// anything left to wait for is not something the property fixes)
+	c.Second = rapid.SampledFrom([]string{"", "", "session"}).Draw(t, "second")
 	c.Prior = rapid.SliceOfN(rapid.SampledFrom([]string{"okcall", "failcall", "push", "unencodable", "unencodable", "deadctx"}), 0, 3).Draw(t, "prior")
 	return c
 }
@@ -161,6 +166,23 @@ func runC08(c c08Case, protos []vt.NamedProto) []string {
 	}()
 	// wait until Close has really begun (the session reports unhealthy / closing)
 	vt.WaitUntilFor(3*time.Second, func() bool { return !closer.Health() })
+	// a second closer arrives while the first is still waiting: it is a Close like any other
+	close2Returned := make(chan struct{})
+	var close2Clock int64
+	if c.Second == "" {
+		close(close2Returned)
+	} else {
+		go func() {
+			if c.Second == "peer" {
+				closerPeer.Close()
+			} else {
+				closer.Close()
+			}
+			close2Clock = lib.tick("close2-returned")
+			close(close2Returned)
+		}()
+		time.Sleep(200 * time.Microsecond)
+	}
 	// calls issued towards the closing side right after Close was invoked: either outcome, but exactly once
 	var late []*c08Call
 	for i := 0; i < c.Late; i++ {
@@ -183,6 +205,14 @@ func runC08(c c08Case, protos []vt.NamedProto) []string {
 				failf("Close returned while %d entered handler(s) of the closing side were still running and %d of its own calls were unanswered", pendingIn, pendingOut)
 				return fails
 			default:
+			}
+			if c.Second != "" {
+				select {
+				case <-close2Returned:
+					failf("a second Close (%s level), started while the first was waiting, returned while %d entered handler(s) of the closing side were still running and %d of its own calls were unanswered", c.Second, pendingIn, pendingOut)
+					return fails
+				default:
+				}
 			}
 		}
 		cc.release()
@@ -228,6 +258,10 @@ func runC08(c c08Case, protos []vt.NamedProto) []string {
 		failf("%s", vt.Hang("return of Close after every handler was released"))
 		return fails
 	}
+	if !vt.WaitClosed(close2Returned) {
+		failf("%s", vt.Hang("return of the second Close after every handler was released"))
+		return fails
+	}
 	for _, cc := range late {
 		if !vt.WaitClosed(cc.cmd.Done()) {
 			failf("%s", vt.Hang("completion of a call issued right after Close was invoked"))
@@ -260,6 +294,13 @@ func runC08(c c08Case, protos []vt.NamedProto) []string {
 			for _, cc := range calls {
 				if cc.rid == rid && cc.inbound && !cutDone {
 					failf("Close returned (clock %d) before handler %s exited (clock %d)", closeClock, rid, clk)
+				}
+			}
+		}
+		if ev == "exit" && c.Second != "" && clk > close2Clock {
+			for _, cc := range calls {
+				if cc.rid == rid && cc.inbound && !cutDone {
+					failf("the second Close returned (clock %d) before handler %s exited (clock %d)", close2Clock, rid, clk)
 				}
 			}
 		}
@@ -302,7 +343,7 @@ func runC08(c c08Case, protos []vt.NamedProto) []string {
 	return fails
 }
 
-const ruleC08 = "one session between two peers; first 0-3 operations complete on the closing side's session (call answered OK / failed by its handler, push, call that fails locally because its argument cannot be marshalled or its context is already cancelled); then 0-4 calls in flight towards the closing side and 0-4 issued by it, every handler gated and ENTERED before Close (session-level or peer-level, on either end) is invoked; 0-2 more calls are issued right after Close began; handlers are released in a generated permutation, optionally with a connection cut after a generated number of releases; oracle (logical clock + wire capture): Close does not return while an entered handler of the closing side runs or one of its own calls is unanswered; every call whose handler was entered before Close completes OK with its genuine result unless the connection was cut first; Close returns after all releases, after the handlers' exits and after their REPLY frames are on the wire; late calls complete exactly once; non-trivial = >=1 handler entered and unreleased when Close is invoked; distinct by case"
+const ruleC08 = "one session between two peers; first 0-3 operations complete on the closing side's session (call answered OK / failed by its handler, push, call that fails locally because its argument cannot be marshalled or its context is already cancelled); then 0-4 calls in flight towards the closing side and 0-4 issued by it, every handler gated and ENTERED before Close (session-level or peer-level, on either end) is invoked; optionally a second session-level Close is started right after the first began and is held to the same oracle; 0-2 more calls are issued right after Close began; handlers are released in a generated permutation, optionally with a connection cut after a generated number of releases; oracle (logical clock + wire capture): Close does not return while an entered handler of the closing side runs or one of its own calls is unanswered; every call whose handler was entered before Close completes OK with its genuine result unless the connection was cut first; Close returns after all releases, after the handlers' exits and after their REPLY frames are on the wire; late calls complete exactly once; non-trivial = >=1 handler entered and unreleased when Close is invoked; distinct by case"
 
 func TestC08GracefulClose(t *testing.T) {
 	rec := vt.NewRec(t, "C08", "graceful-close", ruleC08)
